@@ -72,8 +72,25 @@ func (d *fakeDaemon) handle(w http.ResponseWriter, r *http.Request) {
 		w.Header().Set("Content-Type", "text/plain")
 		_, _ = w.Write([]byte("OK"))
 	case path == "/containers/json":
+		// like the daemon: only running containers unless all=1|true; the label filter compares raw keys
+		q := r.URL.Query()
+		all := q.Get("all") == "1" || q.Get("all") == "true" || q.Get("all") == "True"
+		var flt map[string]map[string]bool
+		if f := q.Get("filters"); f != "" {
+			_ = json.Unmarshal([]byte(f), &flt)
+		}
 		var out []any
+	list:
 		for _, c := range d.inv {
+			if !all && c.State != "running" {
+				continue
+			}
+			for want := range flt["label"] {
+				k, v, hasV := strings.Cut(want, "=")
+				if got, ok := c.Labels[k]; !ok || (hasV && got != v) {
+					continue list
+				}
+			}
 			out = append(out, c.container())
 		}
 		w.Header().Set("Content-Type", "application/json")
